@@ -26,11 +26,13 @@ type c08Sum struct {
 
 func (s *c08Sum) add(digits []byte, mult uint64) {
 	n := uint64(0)
-	for _, d := range digits {
-		s.ovf = vfOr(s.ovf, n > math.MaxUint64/10)
+	for i, d := range digits {
 		m := n * 10
 		n2 := m + uint64(d-'0')
-		s.ovf = vfOr(s.ovf, n2 < m)
+		if i >= 19 { // only a 20th digit can overflow 64 bits (10^19 < 2^64 < 10^20)
+			s.ovf = vfOr(s.ovf, n > math.MaxUint64/10)
+			s.ovf = vfOr(s.ovf, n2 < m)
+		}
 		n = n2
 	}
 	s.ovf = vfOr(s.ovf, n > math.MaxUint64/mult)
